@@ -1,5 +1,6 @@
 import KawinV.Proto
 import KawinV.Model.Homog
+import KawinV.Model.HashCache
 /-! driver verbs for the homogenization model (Float instance) -/
 namespace KawinV.Drv.C17
 open KawinV.Proto KawinV.Homog
@@ -55,11 +56,98 @@ def history : P String := do
   let ms := st.mob.map flist
   pure (" ".intercalate (os ++ ["M", toString ms.length] ++ ms ++ ["F", flist st.fr]))
 
+/-! the pipeline over many points through one shared table (Homog.runPipeline with the code's
+64-bit integer key `HashCache.keyCast 64`); the thermodynamics function is the table of records the
+harness obtained from the implementation without a cache, looked up by the exact bits of (x, T) -/
+
+structure PtRec where
+  x : List Float
+  T : Float
+  pt : Point Nat Float
+
+def sameF (a b : Float) : Bool := a.toBits == b.toBits
+def sameL : List Float → List Float → Bool
+  | [], [] => true
+  | a :: r, b :: s => sameF a b && sameL r s
+  | _, _ => false
+
+def thermOf (tab : List PtRec) (x : List Float) (T : Float) : Point Nat Float :=
+  match tab.find? (fun p => sameL p.x x && sameF p.T T) with
+  | some p => p.pt
+  | none => { stable := [], mob := [], fr := [] }
+
+def idxOf (tab : List PtRec) (x : List Float) (T : Float) : Nat :=
+  (tab.findIdx? (fun p => sameL p.x x && sameF p.T T)).getD tab.length
+
+def ptRec : P PtRec := do
+  let x ← flts; let T ← flt; let stable ← lst nat; let rows ← lst flts; let fr ← flts
+  pure { x := x, T := T, pt := { stable := stable, mob := rows, fr := fr } }
+
+inductive DEv where
+  | enable (b : Bool) | clear | setSens (s : Nat) | call (c : Cfg Nat Float) (idx : List Nat)
+
+def dev : P DEv := do
+  let k ← nat
+  match k with
+  | 0 => do let b ← bool; pure (.enable b)
+  | 1 => pure .clear
+  | 2 => do let s ← nat; pure (.setSens s)
+  | 3 => do let c ← cfg; let idx ← lst nat; pure (.call c idx)
+  | _ => failure
+
+open KawinV.HashCache in
+/-- which earlier-or-same point's record each point of a call was served from: the same table
+machine with the index of the point as the stored value -/
+def srcCall (tab : List PtRec) (t : Table (List Int) Nat) :
+    List (List Float × Float) → List Nat × Table (List Int) Nat
+  | [] => ([], t)
+  | p :: r =>
+    let q := cachedQuery Cfg.fixed (keyCast 64) (idxOf tab) t p.1 p.2
+    let b := srcCall tab q.2 r
+    (q.1 :: b.1, b.2)
+
+open KawinV.HashCache in
+/-- sources for a whole history; `oks` tells for every call whether it ended normally (an exception
+of the post-process function ends the call after the first point's record was looked up / added) -/
+def srcRun (tab : List PtRec) (pt : Nat → List Float × Float) :
+    Table (List Int) Nat → List DEv → List Bool → List (List Nat)
+  | _, [], _ => []
+  | t, .enable b :: r, oks => srcRun tab pt (step Cfg.fixed (keyCast 64) t (Op.enable b : Op Float Nat)) r oks
+  | t, .clear :: r, oks => srcRun tab pt (step Cfg.fixed (keyCast 64) t (Op.clear : Op Float Nat)) r oks
+  | t, .setSens s :: r, oks => srcRun tab pt (step Cfg.fixed (keyCast 64) t (Op.setSens s : Op Float Nat)) r oks
+  | t, .call _ idx :: r, oks =>
+    let ok := oks.headD true
+    let pts := idx.map pt
+    let sc := srcCall tab t (if ok then pts else pts.take 1)
+    sc.1 :: srcRun tab pt sc.2 r oks.tail
+
+open KawinV.HashCache in
+/-- homog.pipeline  db(nats) points(list of: x T stable rows fr) events(list of: 0 b | 1 | 2 s | 3 cfg idx…)
+    → per call `R k (src answer)…` or `E <error>` -/
+def pipeline : P String := do
+  let db ← lst nat; let tab ← lst ptRec; let evs ← lst dev
+  let pt (i : Nat) : List Float × Float := match tab[i]? with | some p => (p.x, p.T) | none => ([], 0)
+  let pevs : List (PEv Nat Float) := evs.map (fun e => match e with
+    | .enable b => PEv.enable b
+    | .clear => PEv.clear
+    | .setSens s => PEv.setSens s
+    | .call c idx => PEv.call c (idx.map pt))
+  let outs := (runPipeline (keyCast 64) (thermOf tab) pw tiny big db
+    (init : Table (List Int) (Point Nat Float)) pevs).2
+  let oks := outs.map (fun o => match o with | .ok _ => true | .error _ => false)
+  let srcs := srcRun tab pt init evs oks
+  let line (o : Except String (List (List Float))) (sc : List Nat) : String := match o with
+    | .ok vs => " ".intercalate (["R", toString vs.length] ++
+        (List.zip sc vs).map (fun sv => toString sv.1 ++ " " ++ flist sv.2))
+    | .error e => "E " ++ e
+  pure (" ".intercalate (List.zipWith line outs srcs))
+
 def handle (verb : String) : Option (P String) :=
   match verb with
   | "homog.rules" => some rules
   | "homog.clip" => some clip
   | "homog.history" => some history
+  | "homog.pipeline" => some pipeline
   | _ => none
 
 end KawinV.Drv.C17
